@@ -53,6 +53,28 @@ CLAIMED = {
         "technique": "Coq refutation witness + verified derivation checker and forest enumeration; certified differential oracle",
         "design": "DESIGN.md section 7, C02",
     },
+    "C19": {
+        "text": "Unbounded Coq theorems over a Gallina model of parglare's string terminals: StringRecognizer matches at p iff the "
+                "text of the input at p is the terminal's text (up to case with ignore_case), for every text; the keyword "
+                "recognizer \\b<text>\\b equals whole-word literal matching for every text that begins and ends with a word "
+                "character; the two un-escape passes equal the conventional single-pass reading for every body without an "
+                "escaped backslash; the front end (inline string -> terminal named by its text, symbol table, override check, "
+                "reference resolution, keyword rewrite) succeeds and yields exactly the declarative reading (one literal "
+                "terminal per distinct text, as if declared) for every grammar whose inline texts avoid '.', newline/tab and "
+                "symbol names; keyword terminals sort and get finish flags exactly like string terminals. Refutation witnesses "
+                "for the excluded classes. Model tied to /repo by differential runs: un-escaped values, Grammar.from_string "
+                "outcome and terminals/productions, recognizer match matrices at every position, per-state action order and "
+                "finish flags; plus a property-level oracle (inline vs declared twin, literal/whole-word reference scanner vs "
+                "the parser's token stream).",
+        "note": "Partial: the renaming step (declared twin with fresh names ~ inline form) is checked differentially, not proved; "
+                "keyword texts with regex metacharacters are outside the recognizer model (regex engine not modelled). ASCII only. "
+                "Known findings: KF-C19-inline-named-by-text, KF-C19-keyword-raw-regex, KF-C19-keyword-boundary-nonword-edge, "
+                "KF-C19-double-unescape. Trusted: Coq kernel, extraction, OCaml driver, Python re as oracle for KEYWORD/ID regexes, "
+                "generators and dumps.",
+        "technique": "Coq proofs over a Gallina model of recognizers/un-escaping/front end/sort key + differential correspondence "
+                     "and reference scanner",
+        "design": "DESIGN.md section 7, C19",
+    },
 }
 
 NOT_YET = "machinery for this property is not built yet in this commit (planned, see DESIGN.md section 12)"
